@@ -24,6 +24,8 @@ type Env struct {
 	Depth    int // bound-scaling factor passed to the simulation processes (VERIF_DEPTH)
 	Start    time.Time
 
+	staleCanaryNote string // outcome of the long-stall race canary (evidence)
+
 	mu      sync.Mutex
 	built   map[string]string
 	modfile string
